@@ -57,3 +57,9 @@ Definition K_Mappings : str := Eval compute in of_string "Mappings".
 (* pydantic's lenient bool spellings (lower-cased) *)
 Definition BOOL_TRUE : list str := Eval compute in map of_string ["true"; "yes"; "on"; "1"; "t"; "y"].
 Definition BOOL_FALSE : list str := Eval compute in map of_string ["false"; "no"; "off"; "0"; "f"; "n"].
+
+Definition K_CFN_AUTH : str := Eval compute in of_string "AWS::CloudFormation::Authentication".
+Definition K_accessKeyId : str := Eval compute in of_string "accessKeyId".
+Definition K_password : str := Eval compute in of_string "password".
+Definition K_secretKey : str := Eval compute in of_string "secretKey".
+Definition K_Password : str := Eval compute in of_string "Password".
